@@ -59,6 +59,14 @@ type edit struct {
 	del  int
 }
 
+// DepRedirects replaces Redirects while a dependency file is instrumented:
+// such a file keeps its real os etc.; only its logging is silenced.
+var DepRedirects = map[string][2]string{
+	"log": {"log", "verif.local/sim/simlog"},
+}
+
+var activeRedirects = Redirects
+
 // File instruments one file's source. base is the first site id to use.
 func File(fset *token.FileSet, filename string, src []byte, rel string, nextSite *int, sites *[]Site, bypass *[]string) ([]byte, error) {
 	f, err := parser.ParseFile(fset, filename, src, parser.ParseComments)
@@ -73,7 +81,7 @@ func File(fset *token.FileSet, filename string, src []byte, rel string, nextSite
 		if why, bad := Forbidden[p]; bad {
 			*bypass = append(*bypass, fmt.Sprintf("%s imports %q (%s)", rel, p, why))
 		}
-		rd, ok := Redirects[p]
+		rd, ok := activeRedirects[p]
 		if !ok {
 			continue
 		}
@@ -248,6 +256,11 @@ func children(n ast.Node, fn func(ast.Node)) {
 // Tree instruments every non-test Go file of the module rooted at repo and
 // writes the virtual copy under outDir. Extra maps additional overlay entries
 // (virtual path -> real file).
+// Deps lists dependency source files (absolute paths in the module cache) that
+// get yield points too, so that a loop in them is ended by the step budget and
+// attributed, instead of hanging the worker until the watchdog kills it.
+var Deps []string
+
 func Tree(repo, outDir string, extra map[string]string) (*Result, error) {
 	res := &Result{Overlay: map[string]string{}}
 	var files []string
@@ -298,6 +311,29 @@ func Tree(repo, outDir string, extra map[string]string) (*Result, error) {
 			return nil, fmt.Errorf("instrument %s: %w", rel, err)
 		}
 		dst := filepath.Join(ovDir, rel)
+		if err := os.MkdirAll(filepath.Dir(dst), 0o755); err != nil {
+			return nil, err
+		}
+		if err := os.WriteFile(dst, out, 0o644); err != nil {
+			return nil, err
+		}
+		res.Overlay[p] = dst
+		res.Files++
+	}
+	for i, p := range Deps {
+		src, err := os.ReadFile(p)
+		if err != nil {
+			return nil, fmt.Errorf("dependency file %s: %w", p, err)
+		}
+		rel := "dep/" + filepath.Base(filepath.Dir(p)) + "/" + filepath.Base(p)
+		activeRedirects = DepRedirects
+		var noBypass []string
+		out, err := File(token.NewFileSet(), p, src, rel, &next, &res.Sites, &noBypass)
+		activeRedirects = Redirects
+		if err != nil {
+			return nil, fmt.Errorf("instrument %s: %w", rel, err)
+		}
+		dst := filepath.Join(ovDir, fmt.Sprintf("dep%d_%s", i, filepath.Base(p)))
 		if err := os.MkdirAll(filepath.Dir(dst), 0o755); err != nil {
 			return nil, err
 		}
